@@ -93,7 +93,10 @@ def judge(case):
             # what a caller does with results it was handed: converts units / masks them in place
             for handed in (adj, bor, dis, areas_raw):
                 scribble(handed)
-            g.get_spherical_voronoi().get_voronoi_volumes(approx=True)
+            try:   # history only: the hull-based estimate is not judged here (it cannot be built for some large grids)
+                g.get_spherical_voronoi().get_voronoi_volumes(approx=True)
+            except Exception:
+                info["approx_estimate_failed"] = True
             dis1, bor1, adj1 = g.get_center_distances(), g.get_cell_borders(), g.get_voronoi_adjacency()
             areas_again = np.asarray(g.get_voronoi_volumes())
         if not (np.array_equal(dense(bor1).astype(float), B) and np.array_equal(dense(adj1).astype(float), A)
@@ -103,7 +106,10 @@ def judge(case):
         with quiet():
             # and a second object of the same grid on which the getters are called in another order, estimate first
             g2 = fresh_sphere_grid(alg, N)
-            g2.get_spherical_voronoi().get_voronoi_volumes(approx=True)
+            try:
+                g2.get_spherical_voronoi().get_voronoi_volumes(approx=True)
+            except Exception:
+                info["approx_estimate_failed"] = True
             dis2, bor2, adj2 = g2.get_center_distances(), g2.get_cell_borders(), g2.get_voronoi_adjacency()
             areas2 = np.asarray(g2.get_voronoi_volumes())
         if not np.array_equal(areas_again, areas):
@@ -127,6 +133,8 @@ def _one(case):
     if info["degenerate_vertex"]:
         classes.append("has_degenerate_vertex(>=4 cells)")
     res.undecided += info["undecided"]
+    if info.get("approx_estimate_failed"):
+        classes.append("history_step_approx_estimate_raised")
     res.case(sample=case, nontrivial=N >= 5, key=case, classes=classes)
     if msgs:
         res.violation(case, "; ".join(msgs[:4]))
